@@ -14,6 +14,7 @@ GsubFirst(w) == \A a, b \in 1..Len(w) : (a < b /\ w[b] = "GSUB") => w[a] = "GSUB
 Clauses(t) ==
   << <<"user-statements-survive-in-order", IsSubseq(Flat(t.user), Flat(t.out))>>,
      <<"no-overwrite-no-duplicate-marker-position", \A T \in UserTags(t.user) \cap Rng(t.skipTags) : TagOK(t.user, t.out, T)>>,
+     <<"user-gdef-parts-left-alone", ("GDEF" \in Rng(t.writers)) => GdefOK(t.user, t.out)>>,
      <<"gsub-unchanged-by-writers", t.gsubSame>>,
      <<"gsub-writers-run-first", GsubFirst(t.writers)>> >>
 Init == i = 1
